@@ -1,3 +1,59 @@
-(* Run.C05 — driver for the generated correspondence cases of C05: the same comparison as
-   Run.C04 (text of the caller and of every generated private function, model vs real compiler). *)
+(* Run.C05 — driver for the generated correspondence cases of C05.
+   (1) the same comparison as Run.C04 (text of the caller and of every generated private function,
+       Model.Loop vs real compiler), re-exported;
+   (2) strengthening round 4: packs whose loops are nested in / around `switch` statements (both
+       lowerings) and `execute … run { … }` blocks: Model.LoopSwitch.xcompile_stmts vs real compiler,
+       every function of the pack compared by exact text. *)
+From Coq Require Import ZArith String List Bool.
 From JMCV Require Export Run.C04.
+From JMCV Require Import Base.Dec MC.Syntax MC.Print Model.Names Model.PrivAlloc Model.IfElse Model.Loop
+     Model.LoopSwitch Run.Common.
+From JMCV Require Model.Switch.
+Import ListNotations.
+
+Record xcase := mkXCase {
+  xk_nm : names;
+  xk_cfg : Switch.cfg;                                       (* pack_format, #forcebst *)
+  xk_funs_of : list (string * (names -> xstmts) * string);   (* user function: name, body, real text | "<error>" *)
+  xk_real_fns : list (string * string)                       (* every private function: resource name, text *)
+}.
+Definition xk_funs (c : xcase) : list (string * xstmts) :=
+  map (fun d => (fst (fst d), snd (fst d) (xk_nm c))) (xk_funs_of c).
+Definition xk_real_users (c : xcase) : list string := map snd (xk_funs_of c).
+
+(* the user functions in source order, the numbering state threaded through *)
+Fixpoint xcompile_funs (nm : names) (cf : Switch.cfg) (fl : list (string * xstmts)) (a : xalloc)
+  : option (list (list cmd) * xalloc) :=
+  match fl with
+  | [] => Some ([], a)
+  | (_, l) :: r =>
+    match xcompile_stmts nm cf l a with
+    | None => None
+    | Some (lines, a1) =>
+      match xcompile_funs nm cf r a1 with
+      | None => None
+      | Some (ls, a2) => Some (lines :: ls, a2)
+      end
+    end
+  end.
+
+Definition xmodel_out (c : xcase) : option (list string * list (string * string)) :=
+  match xcompile_funs (xk_nm c) (xk_cfg c) (xk_funs c) xalloc0 with
+  | Some (bodies, a) => Some (map pr_cmds bodies, map (fun d => (fst d, pr_cmds (snd d))) (all_fns a))
+  | None => None
+  end.
+
+Definition xcase_ok (c : xcase) : bool :=
+  match xmodel_out c with
+  | Some (bodies, fs) => strs_eq bodies (xk_real_users c) && fns_eq fs (xk_real_fns c)
+  | None => forallb (String.eqb "<error>") (xk_real_users c)
+  end.
+Definition xmismatches (l : list xcase) : list nat := bad_indices xcase_ok l.
+
+Definition xmodel_text (c : xcase) : string :=
+  match xmodel_out c with
+  | Some (bodies, fs) =>
+    String.concat nl (map (fun d => ("== function " ++ fst (fst d) ++ nl ++ snd d)%string) (combine (xk_funs c) bodies) ++
+                      map (fun d => ("== " ++ fst d ++ nl ++ snd d)%string) fs)
+  | None => "<error>"
+  end.
